@@ -4,7 +4,7 @@ Import ListNotations.
 Local Open Scope bool_scope.
 Local Open Scope Z_scope.
 
-(* ---------- model (as in HeapModel.v) ---------- *)
+(* ---------- model of scpiheap_* (utils.c); these definitions are the ones extracted and run against the code ---------- *)
 Definition getb (d:list Z) (i:Z) : Z := if (i <? 0) then 0 else nth (Z.to_nat i) d 0.
 Fixpoint setb (d:list Z) (i:nat) (v:Z) : list Z :=
   match d, i with
